@@ -225,3 +225,87 @@ func VerifH_HistoryRevisions() {
 		}
 	}
 }
+
+// VerifH_StoreGetFilters: point lookups on the store. The index (stub of indexer.Get /
+// GetWithPrefix / GetBetween) holds for the key a version of symbolic tx id, revision count and
+// kind: live, logically deleted, expired long ago, or expiring far in the future (index value
+// written by the real serializeIndexableEntry). The real ImmuStore.Get / GetWithPrefix return the
+// version (its own tx id, revision, metadata, value location) exactly when it is live or not yet
+// expired, ErrKeyNotFound for a logical delete and ErrExpiredEntry for an expired one;
+// GetWithFilters without filters and GetBetween return the version whatever its kind.
+func VerifH_StoreGetFilters() {
+	kind := verifrt.Byte("kind")
+	verifrt.Assume(kind <= 3)
+	var md *KVMetadata
+	switch kind {
+	case 1:
+		md = NewKVMetadata()
+		md.AsDeleted(true)
+	case 2:
+		md = NewKVMetadata()
+		md.ExpiresAt(time.Unix(0, 0)) // before any "now"
+	case 3:
+		md = NewKVMetadata()
+		md.ExpiresAt(time.Unix(1<<41, 0)) // after any "now" the executor or the sandbox clock gives
+		if verifrt.Bool("alsoNonIndexable") {
+			md.AsNonIndexable(true)
+		}
+	}
+	var kvmd []byte
+	if md != nil {
+		kvmd = md.Bytes()
+	}
+	e := &TxEntry{vLen: int(verifrt.U16("e.vLen")), vOff: verifrt.I64("e.vOff"), hVal: verifrt.Digest("e.hVal")}
+	b := make([]byte, 64+len(kvmd))
+	val := b[:serializeIndexableEntry(b, nil, e, kvmd)]
+	tx, hc := verifrt.U64("tx"), verifrt.U64("hc")
+	verifrt.Assume(tx >= 1)
+	verifrt.Stub("(*embedded/store.ImmuStore).getIndexerFor", func(s *ImmuStore, key []byte) (*indexer, error) { return &indexer{}, nil })
+	verifrt.Stub("(*embedded/store.indexer).Get", func(idx *indexer, key []byte) ([]byte, uint64, uint64, error) { return val, tx, hc, nil })
+	verifrt.Stub("(*embedded/store.indexer).GetBetween", func(idx *indexer, key []byte, lo, hi uint64) ([]byte, uint64, uint64, error) {
+		return val, tx, hc, nil
+	})
+	verifrt.Stub("(*embedded/store.indexer).GetWithPrefix", func(idx *indexer, prefix, neq []byte) ([]byte, []byte, uint64, uint64, error) {
+		return []byte{1, 2}, val, tx, hc, nil
+	})
+	st := &ImmuStore{}
+	same := func(ref ValueRef) {
+		verifrt.Assert(ref.Tx() == tx && ref.HC() == hc && ref.Len() == uint32(e.vLen) && ref.VOff() == e.vOff && ref.HVal() == e.hVal, "the version's own tx id, revision and value location")
+		verifrt.Assert(bytes.Equal(verifKVMDBytes(ref.KVMetadata()), kvmd), "the version's own metadata")
+	}
+	var ref ValueRef
+	var err error
+	which := verifrt.Param("which")
+	switch which {
+	case 0:
+		ref, err = st.Get(context.Background(), []byte{1, 2})
+	case 1:
+		var key []byte
+		key, ref, err = st.GetWithPrefix(context.Background(), []byte{1}, nil)
+		if err == nil {
+			verifrt.Assert(bytes.Equal(key, []byte{1, 2}), "the key found under the prefix")
+		}
+	case 2:
+		ref, err = st.GetWithFilters(context.Background(), []byte{1, 2})
+	default:
+		ref, err = st.GetBetween(context.Background(), []byte{1, 2}, 1, 9)
+	}
+	if which >= 2 {
+		verifrt.Assert(err == nil, "no filter: the version is returned whatever its kind")
+		same(ref)
+		verifrt.Reach("unfiltered")
+		return
+	}
+	switch kind {
+	case 1:
+		verifrt.Assert(err == ErrKeyNotFound, "a logical delete reads as not found")
+		verifrt.Reach("deleted")
+	case 2:
+		verifrt.Assert(err == ErrExpiredEntry, "an expired entry reads as expired")
+		verifrt.Reach("expired")
+	default:
+		verifrt.Assert(err == nil, "a live (or not yet expired) version is returned")
+		same(ref)
+		verifrt.Reach("live")
+	}
+}
